@@ -115,7 +115,8 @@ class C01(Prop):
     id = "C01"
     required = ["C01.bytes_accept_iff", "C01.str_accept_iff", "C01.bytes_accept_iff_partial", "C01.str_accept_iff_partial", "C01.accepted_header_facts", "C01.fromStrHeader_accept_iff", "C01.fromStrAddresses_accept_iff", "C01.bytesP_accept_iff"]
     rule = ("grammar-directed valid lines (distinct source/destination), single-element mutations, every line ending, every prefix, all token strings up to "
-            "k tokens, lengths around 107; both entry points; non-trivial = distinct accepted lines with source != destination plus rejected lines one edit away from an accepted one")
+            "k tokens, lengths around 107; both entry points; non-trivial = distinct accepted lines with source != destination plus rejected lines one edit away from an accepted one"
+            " Also: every byte value next to the first CR at every alignment modulo 16, other-family and embedded address texts, accepted lines of every length 98..107 per protocol.")
 
     def gen(self, tier, rng):
         pool = v1_inputs(rng, tier, k=4 if tier == "quick" else 5)
@@ -226,7 +227,8 @@ class C03(Prop):
     extra_profiles = ["nochecks"]
     required = ["C03.parseBytes_no_panic", "C03.parseStr_no_panic", "C03.v2_parse_no_panic", "C03.auto_parse_no_panic", "C03.v1_accessors_no_panic", "C03.v2_accessors_no_panic", "C03.tlv_next_no_panic", "C03.tlv_count_bound", "C03.tlv_progress", "C03.v2_display_no_panic", "C03.tlvs_no_panic", "C03.tlv_ends", "C03.fromStrHeader_no_panic", "C03.sums_bounded"]
     rule = ("every generator of C01/C02/C11 through every entry point and accessor, in builds with and without overflow checks; multi-byte characters adjacent to CR; "
-            "non-trivial = distinct inputs that reach a checked primitive at its boundary (CR last, CR + lead byte, cut = len, length = family size)")
+            "non-trivial = distinct inputs that reach a checked primitive at its boundary (CR last, CR + lead byte, cut = len, length = family size)"
+            " Also: headers declaring 65519..65535 bytes cut at the last 40 positions; every returned value (results, headers, owned copies, items, iterators, errors) formatted with {:?}, {:#?}, to_string and the source() chain inside the per-operation guard; long text TLV values with multi-byte characters around 16/32/64/128/256.")
 
     def gen(self, tier, rng):
         pool = v1_inputs(rng, tier)
@@ -299,7 +301,8 @@ class C04(Prop):
     id = "C04"
     required = ["C04.v2_trailing", "C04.v1_bytes_trailing", "C04.v1_str_trailing", "C04.auto_trailing", "C04.result_is_function_of_header"]
     rule = ("accepted headers x 13 trailers x 4 entry points, plus the reported header on its own; non-trivial = distinct (header, trailer) pairs whose trailer "
-            "begins with a byte able to extend the last field or the line ending")
+            "begins with a byte able to extend the last field or the line ending"
+            " Also: an unterminated read of about the same length parsed between a header and the same header with a trailer (the harness re-uses one receive buffer per thread).")
 
     def gen(self, tier, rng):
         ops = []
@@ -398,7 +401,8 @@ class C05(Prop):
     id = "C05"
     required = ["C05.v2_prefix_incomplete", "C05.v1_bytes_prefix_incomplete", "C05.v1_str_prefix_incomplete", "C05.auto_prefix_incomplete", "C05.flags", "C05.streaming_v2", "C05.streaming_v1", "C05.v1_str_prefix_incomplete'", "C05.v1_bytes_prefix_incomplete_iff", "C05.streaming_v1_str"]
     rule = ("every cut 0..len-1 of generated accepted headers (ASCII v1 lines, v2 headers) through the version's entry points and the auto-detecting one; "
-            "non-trivial = distinct (header shape, cut position class)")
+            "non-trivial = distinct (header shape, cut position class)"
+            " Also: headers declaring 65519..65535 bytes cut at the last 40 positions; accepted lines of every length 98..107; is_complete = !is_incomplete checked on every kind of result (rejected, over-long, garbage, corrupted) through every entry point.")
 
     def gen(self, tier, rng):
         ops = []
@@ -477,7 +481,8 @@ class C06(Prop):
     id = "C06"
     required = ["C06.auto_def", "C06.accept_iff", "C06.incomplete_iff", "C06.never_both", "C06.parse_verdict", "C06.verdict_table", "C06.v2_incomplete_not_always_extensible"]
     rule = ("union of v1 and v2 generators plus mixtures (signature + text, text + v2 header, every signature prefix), each through auto / v1b / v2; "
-            "non-trivial = distinct inputs on which the two dedicated parsers give different classes")
+            "non-trivial = distinct inputs on which the two dedicated parsers give different classes"
+            " Also: every byte string of at most 2 bytes through all three parsers (exhaustive), third bytes after the signature starts, HeaderResult::from of the dedicated results.")
 
     def gen(self, tier, rng):
         pool = v1_inputs(rng, tier, k=3 if tier == "quick" else 4)
@@ -709,7 +714,8 @@ class C12(Prop):
     id = "C12"
     required = ["C12.v2_version", "C12.v2_command", "C12.v2_family", "C12.v2_transport", "C12.v2_length", "C12.v2_signature", "C12.v2_terminal", "C12.v1_keyword", "C12.v1_protocol", "C12.v1_source_address", "C12.v1_destination_address", "C12.v1_source_port", "C12.v1_destination_port", "C12.v1_suffix", "C12.v1_limit_and_utf8", "C12.utf8_valid_iff_wellFormed", "C12.v1_ill_formed_utf8", "C12.v2_corruptions_auto", "C12.v1_protocol_short", "C12.v1_source_address_spec", "C12.port_payload_table"]
     rule = ("well-formed lines x element x invalid-replacement table (SP/CR-free replacements), CR followed by every non-LF class, lines over 107 bytes, invalid UTF-8; "
-            "all invalid nibble values x valid control pairs, all too-small lengths, every altered signature byte; non-trivial = distinct (element, replacement, error) triples")
+            "all invalid nibble values x valid control pairs, all too-small lengths, every altered signature byte; non-trivial = distinct (element, replacement, error) triples"
+            " Also: other-family and embedded address texts (::ffff:a.b.c.d, ::a.b.c.d, 64:ff9b::a.b.c.d) as invalid fields.")
 
     def gen(self, tier, rng):
         ops = []
@@ -832,7 +838,8 @@ class C15(Prop):
     id = "C15"
     required = ["C15.reassemble", "C15.protocol_matches", "C15.display_is_header", "C15.sep_iff"]
     rule = ("view fields of every accepted header from the valid-line generator (TCP4/TCP6 with any field values, UNKNOWN with empty/short/long/multi-space/non-ASCII text) "
-            "with trailers; non-trivial = distinct (protocol, address-text length, trailing-text shape)")
+            "with trailers; non-trivial = distinct (protocol, address-text length, trailing-text shape)"
+            " Also: UNKNOWN lines whose text contains the keywords UNKNOWN / PROXY / TCP4 again.")
 
     def gen(self, tier, rng):
         ops = []
@@ -962,7 +969,8 @@ class C18(Prop):
     id = "C18"
     required = ["C18.frozen_complete_bytes", "C18.frozen_complete_str", "C18.frozen_stable_bytes", "C18.complete_at_108", "C18.complete_at_108_str", "C18.sharp_107_bytes", "C18.incomplete_ge_107_bytes", "C18.frozen_stable_str"]
     rule = ("every frozen input (first CR followed by >= 1 byte, or >= 107 bytes without CR) of the v1 pool, token strings, CRLF lines with too few fields, CR + non-LF, "
-            "CR-free inputs of 106/107/108+ bytes; non-trivial = distinct frozen inputs that are not accepted")
+            "CR-free inputs of 106/107/108+ bytes; non-trivial = distinct frozen inputs that are not accepted"
+            " Also: inputs of 107/108/109/130 bytes whose first CR is the last byte (108 bytes and more: complete; 107: not pinned).")
 
     def gen(self, tier, rng):
         pool = v1_inputs(rng, tier, k=4 if tier == "quick" else 5)
